@@ -11,7 +11,7 @@
 (*        policy "RR" | "BF", named [task -> pilot | "none"],              *)
 (*        cores [task -> Nat], hwm [pilot -> Nat], lo, hi (eligible state  *)
 (*        window as PVal numbers), devEarly, devRaise, devAddFresh,        *)
-(*        devCtrRaise (deviations, see TmgrSched)                          *)
+(*        devCtrRaise, devHalfValid (deviations, see TmgrSched)            *)
 (* cs : the scheduler's own bookkeeping                                    *)
 (*        role  [pilot -> "none" | "added" | "removed"]    _pilots[p][role]*)
 (*        pst   [pilot -> state name]                      _pilots[p][state]*)
@@ -141,7 +141,7 @@ EarlyFwd(early, P, i) ==
 \* _update_pilot_states (devCtrRaise, the code): the roles are set, the pilots
 \* before it in the message have their state updated, nothing else happens - no
 \* early bound tasks, no policy add_pilots.  Intended: the contradiction is ignored.
-StepAdd(K, cs, add) ==
+StepAddValid(K, cs, add) ==
   LET P       == AddPids(add)
       PS      == SeqSet(P)
       All     == DOMAIN cs.role
@@ -177,6 +177,27 @@ StepAdd(K, cs, add) ==
   IN  IF raises THEN [cs |-> c2, fwd |-> <<>>, ex |-> TRUE]
       ELSE [cs |-> r5.cs, fwd |-> r3.fwd \o efwd \o r5.fwd, ex |-> FALSE]
 
+\* A command may name pilots which are already added, anywhere in the message.  The
+\* code (devHalfValid) raises at the first of them: the pilots before it have their
+\* role (and document) set, nothing else happens - no state, no early bound tasks,
+\* no policy add_pilots.  Intended: such entries are skipped, the others are added.
+MinOf(S) == CHOOSE i \in S : \A k \in S : i <= k
+
+StepAdd(K, cs, add) ==
+  LET inval == {i \in 1 .. Len(add) : cs.role[add[i][1]] = "added"}
+      All   == DOMAIN cs.role
+  IN  IF inval = {} THEN StepAddValid(K, cs, add)
+      ELSE IF K.devHalfValid
+           THEN LET pre == {add[k][1] : k \in 1 .. (MinOf(inval) - 1)}
+                IN  [cs  |-> [cs EXCEPT
+                                !.role = [p \in All |-> IF p \in pre THEN "added" ELSE cs.role[p]],
+                                !.pst  = [p \in All |-> IF p \in pre /\ K.devAddFresh THEN "none" ELSE cs.pst[p]],
+                                !.info = [p \in All |-> IF p \in pre /\ K.devAddFresh THEN NoInfo ELSE cs.info[p]]],
+                     fwd |-> <<>>, ex |-> TRUE]
+           ELSE LET add2 == SelectSeq(add, LAMBDA x : cs.role[x[1]] # "added")
+                IN  IF add2 = <<>> THEN [cs |-> cs, fwd |-> <<>>, ex |-> FALSE]
+                    ELSE StepAddValid(K, cs, add2)
+
 (* ---- control_cb: remove_pilots -------------------------------------------- *)
 \* Ps: sequence.  The base class sets the roles; the policy's remove_pilots raises at
 \* the first pilot which is not in its pid list (only after a half finished add)
@@ -191,12 +212,28 @@ RemoveLoop(pids, Ps, i) ==               \* -> [pids, ex]
   ELSE IF Ps[i] \notin SeqSet(pids) THEN [pids |-> pids, ex |-> TRUE]
   ELSE RemoveLoop(RemoveFirst(pids, Ps[i]), Ps, i + 1)
 
-StepRemove(K, cs, Ps) ==
+StepRemoveValid(K, cs, Ps) ==
   LET PS == SeqSet(Ps)
       r  == RemoveLoop(cs.pids, Ps, 1)
   IN  [cs  |-> [cs EXCEPT !.role = [p \in DOMAIN cs.role |-> IF p \in PS THEN "removed" ELSE cs.role[p]],
                           !.pids = r.pids],
        fwd |-> <<>>, ex |-> r.ex]
+
+\* A command may name pilots which are not added (never added, or removed already).
+\* The code (devHalfValid) raises at the first of them: the pilots before it are
+\* marked removed, but the policy's remove_pilots is never called - they stay in its
+\* pid list.  Intended: such entries are skipped, the others are removed.
+StepRemove(K, cs, Ps) ==
+  LET inval == {i \in 1 .. Len(Ps) : cs.role[Ps[i]] # "added"}
+  IN  IF inval = {} THEN StepRemoveValid(K, cs, Ps)
+      ELSE IF K.devHalfValid
+           THEN LET pre == {Ps[k] : k \in 1 .. (MinOf(inval) - 1)}
+                IN  [cs  |-> [cs EXCEPT !.role = [p \in DOMAIN cs.role |->
+                                                    IF p \in pre THEN "removed" ELSE cs.role[p]]],
+                     fwd |-> <<>>, ex |-> TRUE]
+           ELSE LET Ps2 == SelectSeq(Ps, LAMBDA p : cs.role[p] = "added")
+                IN  IF Ps2 = <<>> THEN [cs |-> cs, fwd |-> <<>>, ex |-> FALSE]
+                    ELSE StepRemoveValid(K, cs, Ps2)
 
 (* ---- _base_state_cb: one pilot notification ------------------------------- *)
 StepPState(K, cs, p, s) ==
